@@ -262,7 +262,7 @@ func runCase(in Input) (fs fails, key, note string) {
 func main() {
 	r := sx.New("C11", "exploration",
 		"every generated (source envelope, builder, argument) case is non-trivial; distinct by case identity",
-		[]string{"the ping auto-reply through real channels (ProcessCommand against AutoReplyPings) is checked by the gosim scenario, here only the built value",
+		[]string{"the ping auto-reply is exercised by one real round trip per direction (Client/Server over the in-process transport, default schedule); schedules of command matching are C05's subject",
 			"transport path = real tcpTransport.Receive over a passive in-memory net.Conn",
 			"only the fields the statement names are compared (reply pp / metadata, notification from are not constrained)"})
 	var rin Input
@@ -392,5 +392,6 @@ func main() {
 	r.Set("bases_full", len(full))
 	r.Set("bases_pairwise", len(pw))
 	r.Set("methods", len(codec.Methods))
+	pingRoundTrips(r)
 	r.Finish()
 }
